@@ -13,6 +13,7 @@ From Coq Require Import Permutation ZArith.
 From VLib Require Import Akita ListX.
 From VMem Require Import Rdma RdmaProofs.
 From VDrv Require Import Distribute DistributeProofs.
+From VSys Require Import Routing RoutingProofs.
 Open Scope N_scope.
 
 (** * (i) RDMA engine *)
@@ -335,6 +336,25 @@ Theorem flat_id_injective : forall g x y z x' y' z',
   Split.flat_id g x y z = Split.flat_id g x' y' z' -> x = x' /\ y = y' /\ z = z'.
 Proof. exact SplitP.flat_id_injective. Qed.
 Print Assumptions flat_id_injective.
+
+(** The RDMA address table of the timing platform, [CPU; GPU 1; ...; GPU n]
+    with banks of the DRAM size B, against the physical ranges the driver
+    assigns (device k owns [k*B + ps, (k+1)*B + ps), ps = page size, because
+    the allocator starts one page above 0): every address of device k's range
+    is routed to device k, except its last page, which lies in bank k+1 — the
+    next GPU's, or outside the table (lookup panics) for the last GPU
+    (finding (e) of docs/C10.md; only reached when a device is completely
+    full).  The check compares [table n] with the table found in platforms
+    built by the real timingconfig builder for n = 1..4. *)
+Open Scope N_scope.
+Theorem routing_table_correct : forall B ps n k a,
+  0 < ps -> ps <= B -> (k <= n)%nat ->
+  N.of_nat k * B + ps <= a < (N.of_nat k + 1) * B + ps ->
+  (a < (N.of_nat k + 1) * B -> route B n a = owner k) /\
+  ((N.of_nat k + 1) * B <= a -> route B n a = if (k <? n)%nat then owner (S k) else 0).
+Proof. exact routing_table_correct_proof. Qed.
+Print Assumptions routing_table_correct.
+Open Scope Z_scope.
 
 (** non-vacuity / quirks *)
 Example distribute_demo :
